@@ -292,6 +292,9 @@ impl Scenario for Events {
             Sut::Kb(Keyboard::new(DynSet::new(cfg.set), mk(0), hc(cfg.map)))
         };
         let mut refm = initial_mods();
+        // C14 only: a twin Keyboard fed the same events gives the live modifier state of a
+        // bare EventDecoder (which has no getter) without consulting the C04 model
+        let mut twin = Keyboard::new(DynSet::new(cfg.set), DynLayout::Direct(2), hc(cfg.map));
         let mut mode = cfg.map;
         let mut queue: VecDeque<KeyEvent> = VecDeque::new();
         let mut violation: Option<Violation> = None;
@@ -410,7 +413,8 @@ impl Scenario for Events {
             }
             if let Some((k, s, _via_queue)) = event {
                 let ki = kidx(k).min(NKEYS - 1);
-                let before = refm.clone();
+                let live_before: Modifiers = if c14 { sut.mods().unwrap_or_else(|| twin.get_modifiers().clone()) } else { refm.clone() };
+                let before = if c14 { live_before.clone() } else { refm.clone() };
                 // model-side fault accounting
                 match s {
                     KeyState::Down => {
@@ -440,6 +444,12 @@ impl Scenario for Events {
                 let r = sut.process(KeyEvent::new(k, s));
                 env.cov.api_calls += 1;
                 ref_mods_step(&mut refm, k, s);
+                if c14 {
+                    let _ = twin.process_keyevent(KeyEvent::new(k, s));
+                    env.cov.api_calls += 1;
+                }
+                // the modifier state "now": the model's for C04, the decoder's own for C14
+                let live: Modifiers = if c14 { sut.mods().unwrap_or_else(|| twin.get_modifiers().clone()) } else { refm.clone() };
                 let asked: Vec<Asked> = log.borrow().asked.clone();
                 h.mix((ki as u64) << 2 | sidx(s) as u64);
                 h.mix(decoded_hash(&r));
@@ -532,12 +542,12 @@ impl Scenario for Events {
                             if lenient_key(k) {
                                 env.cov.probe("lenient_key_pressed");
                             }
-                            if refm != initial_mods() {
+                            if live != initial_mods() {
                                 env.cov.probe("layout_consulted_with_nondefault_modifiers");
                             }
                             // exactly what the currently installed layout returned for (k, live modifiers, live mode)
                             let matching = asked.iter().find(|a| {
-                                a.recorder == rec_id && a.key == k && a.mods == refm && a.map == mode && r == Some(DecodedKey::Unicode(char::from_u32(a.token).unwrap_or('\u{0}')))
+                                a.recorder == rec_id && a.key == k && a.mods == live && a.map == mode && r == Some(DecodedKey::Unicode(char::from_u32(a.token).unwrap_or('\u{0}')))
                             });
                             let ok = matching.is_some() || (lenient_key(k) && r == Some(DecodedKey::RawKey(k)));
                             if !ok {
@@ -551,7 +561,7 @@ impl Scenario for Events {
                                     "press-yields-what-the-live-layout-returns",
                                     "Down({}) with modifiers [{}], mode map={}, installed recorder#{}: yielded {}; consultations during the call: {:?}",
                                     kname(k),
-                                    mods_show(&refm),
+                                    mods_show(&live),
                                     mode as u8,
                                     rec_id,
                                     decoded_show(&r),
@@ -564,12 +574,12 @@ impl Scenario for Events {
             }
             // after every operation, whatever it was
             env.cov.evaluations += 1;
-            if let Some(m) = sut.mods() {
+            if let (false, Some(m)) = (c14, sut.mods()) {
                 if m != refm {
                     fail!(
                         'ops,
                         i,
-                        if c14 { "modifier-state-model" } else { "modifier-fold-over-event-history" },
+                        "modifier-fold-over-event-history",
                         "after {}: get_modifiers() reports [{}], the delivered event history gives [{}]",
                         op_show(&top.op),
                         mods_show(&m),
